@@ -30,13 +30,14 @@ func (e *Env) withState(st *State) *Env {
 
 func (e *Env) find(name string) (Val, bool) {
 	for c := e; c != nil; c = c.parent {
-		if v, ok := c.vars[name]; ok {
-			return v, true
-		}
+		// program variables at the current point shadow parameters' entry values (parameters may be reassigned)
 		if c.lookup != nil {
 			if v, ok := c.lookup(name); ok {
 				return v, true
 			}
+		}
+		if v, ok := c.vars[name]; ok {
+			return v, true
 		}
 	}
 	return Val{}, false
@@ -106,6 +107,9 @@ func (e *Env) eval(ex Expr) Val {
 		}
 		if x.Name == "ncall" {
 			return intVal(e.st.ncall)
+		}
+		if x.Name == "idmap" {
+			return e.call(&ECall{Fn: "idmap"})
 		}
 		efail("unknown identifier %q", x.Name)
 	case *EField:
@@ -247,6 +251,18 @@ func (e *Env) index(base, idx Val) Val {
 		et := base.T.Underlying().(*types.Array).Elem()
 		return scalar(et, sel(base.S, idx.S))
 	case KScalar:
+		// ghost set of visited keys of a map range (N == -1 marks it): membership
+		if base.N == -1 && strings.HasPrefix(base.Srt, "(Array ") {
+			return boolVal(sel(base.S, idx.S))
+		}
+		// spec-only integer map
+		if base.T == nil && strings.HasPrefix(base.Srt, "(Array Int ") {
+			inner := strings.TrimSuffix(strings.TrimPrefix(base.Srt, "(Array Int "), ")")
+			if inner == "Int" {
+				return intVal(sel(base.S, idx.S))
+			}
+			return Val{K: KScalar, Srt: inner, S: sel(base.S, idx.S)}
+		}
 		// Go map value: m[k]
 		if base.T != nil {
 			if mt, ok := base.T.Underlying().(*types.Map); ok {
@@ -550,6 +566,72 @@ func (e *Env) call(x *ECall) Val {
 		}
 		_, present := e.x.mapLookup(e.st, mt, m.S, k)
 		return boolVal(present)
+	case "fdiv":
+		// floor division (SMT div); equals Go's / for non-negative dividends and >> for shifts
+		argn(2)
+		return intVal(app("div", e.evalInt(x.Args[0]), e.evalInt(x.Args[1])))
+	case "idmap":
+		argn(0)
+		if _, ok := c.funs["idmap"]; !ok {
+			c.DeclFun("idmap", nil, arrSort("Int", "Int"))
+			c.Assume("(forall ((i Int)) (! (= (select idmap i) i) :pattern ((select idmap i))))")
+		}
+		return Val{K: KScalar, Srt: arrSort("Int", "Int"), S: "idmap"}
+	case "store":
+		argn(3)
+		m := e.eval(x.Args[0])
+		return Val{K: KScalar, Srt: m.Srt, S: store(m.S, e.evalInt(x.Args[1]), e.eval(x.Args[2]).S)}
+	case "swap":
+		argn(3)
+		m := e.eval(x.Args[0])
+		i, j := e.evalInt(x.Args[1]), e.evalInt(x.Args[2])
+		return Val{K: KScalar, Srt: m.Srt, S: store(store(m.S, i, sel(m.S, j)), j, sel(m.S, i))}
+	case "maplam":
+		// maplam(\k. e): the integer map defined pointwise by e
+		argn(1)
+		lam := e.eval(x.Args[0])
+		if lam.K != KLambda {
+			efail("maplam needs a lambda")
+		}
+		arr := c.Fresh("maplam", arrSort("Int", "Int"))
+		k := c.boundVar("k")
+		ch := lam.Lam.Env.child()
+		ch.vars[lam.Lam.Vars[0].Name] = intVal(k)
+		body := ch.eval(lam.Lam.Body)
+		c.Assume(fmt.Sprintf("(forall ((%s Int)) (! (= (select %s %s) %s) :pattern ((select %s %s))))", k, arr, k, body.S, arr, k))
+		return Val{K: KScalar, Srt: arrSort("Int", "Int"), S: arr}
+	case "argof":
+		// argof(f, i): a dummy value of the type of f's i-th parameter (for typed binders)
+		argn(2)
+		f := e.eval(x.Args[0])
+		sig, ok := f.T.Underlying().(*types.Signature)
+		if !ok {
+			efail("argof: not a function")
+		}
+		var i int
+		fmt.Sscan(e.evalInt(x.Args[1]), &i)
+		return c.zero(sig.Params().At(i).Type())
+	case "keyof", "valof", "elemof":
+		// a dummy value carrying the key / value / element type (for typed binders: forall x like keyof(m.m) :: ...)
+		argn(1)
+		v := e.eval(x.Args[0])
+		if v.T == nil {
+			efail("%s: untyped argument", x.Fn)
+		}
+		switch u := v.T.Underlying().(type) {
+		case *types.Map:
+			if x.Fn == "keyof" {
+				return c.zero(u.Key())
+			}
+			if x.Fn == "valof" {
+				return c.zero(u.Elem())
+			}
+		case *types.Slice:
+			if x.Fn == "elemof" {
+				return c.zero(u.Elem())
+			}
+		}
+		efail("%s of %s", x.Fn, describe(v))
 	case "pow2":
 		argn(1)
 		c.DeclFun("pow2", []string{"Int"}, "Int")
@@ -599,3 +681,104 @@ func (e *Env) call(x *ECall) Val {
 	return Val{}
 }
 
+
+// ---------- conjunct splitting and printing ----------
+
+type conjunct struct {
+	Text string
+	Term string
+}
+
+// conjuncts splits a formula at top-level conjunctions, looking through predicate applications,
+// so that every conjunct becomes its own (small, precisely named) obligation.
+func (e *Env) conjuncts(ex Expr, depth int) []conjunct {
+	switch x := ex.(type) {
+	case *EBin:
+		if x.Op == "&&" {
+			return append(e.conjuncts(x.L, depth), e.conjuncts(x.R, depth)...)
+		}
+	case *ECall:
+		if p := e.x.eng.pred(e.pkg, x.Fn); p != nil && depth < 4 && len(p.Params) == len(x.Args) {
+			if b, ok := p.Body.(*EBin); ok && b.Op == "&&" {
+				ch := &Env{x: e.x, st: e.st, old: e.old, vars: map[string]Val{}, pkg: p.Pkg}
+				for i, a := range x.Args {
+					ch.vars[p.Params[i]] = e.eval(a)
+				}
+				var out []conjunct
+				for _, c := range ch.conjuncts(p.Body, depth+1) {
+					out = append(out, conjunct{fmtExpr(x) + " / " + c.Text, c.Term})
+				}
+				return out
+			}
+		}
+	}
+	return []conjunct{{fmtExpr(ex), e.evalBool(ex)}}
+}
+
+func fmtExpr(ex Expr) string {
+	switch x := ex.(type) {
+	case *EIdent:
+		return x.Name
+	case *EInt:
+		return x.V
+	case *EBool:
+		if x.V {
+			return "true"
+		}
+		return "false"
+	case *ENil:
+		return "nil"
+	case *EStr:
+		return fmt.Sprintf("%q", x.V)
+	case *EField:
+		return fmtExpr(x.X) + "." + x.Name
+	case *EIndex:
+		return fmtExpr(x.X) + "[" + fmtExpr(x.I) + "]"
+	case *ESlice:
+		lo, hi := "", ""
+		if x.Lo != nil {
+			lo = fmtExpr(x.Lo)
+		}
+		if x.Hi != nil {
+			hi = fmtExpr(x.Hi)
+		}
+		return fmtExpr(x.X) + "[" + lo + ":" + hi + "]"
+	case *ECall:
+		var as []string
+		for _, a := range x.Args {
+			as = append(as, fmtExpr(a))
+		}
+		return x.Fn + "(" + strings.Join(as, ", ") + ")"
+	case *EApply:
+		var as []string
+		for _, a := range x.Args {
+			as = append(as, fmtExpr(a))
+		}
+		return fmtExpr(x.F) + "(" + strings.Join(as, ", ") + ")"
+	case *EUn:
+		return x.Op + fmtExpr(x.X)
+	case *EBin:
+		return "(" + fmtExpr(x.L) + " " + x.Op + " " + fmtExpr(x.R) + ")"
+	case *EQuant:
+		kw := "exists"
+		if x.Forall {
+			kw = "forall"
+		}
+		var bs []string
+		for _, b := range x.Vars {
+			bs = append(bs, b.Name)
+		}
+		return kw + " " + strings.Join(bs, ", ") + " :: " + fmtExpr(x.Body)
+	case *ESeqLit:
+		var as []string
+		for _, a := range x.Elems {
+			as = append(as, fmtExpr(a))
+		}
+		return "[" + strings.Join(as, ", ") + "]"
+	case *ELet:
+		return "let " + x.Name + " := " + fmtExpr(x.Val) + " in " + fmtExpr(x.Body)
+	case *ELambda:
+		return "\\" + x.Vars[0].Name + ". " + fmtExpr(x.Body)
+	}
+	return "?"
+}
